@@ -70,6 +70,12 @@ def load_one(lit: LineIterator) -> dict:
 
     # mulliken charges
     if data.get("mulliken_charges") is not None:
+        if "atnums" in result and len(data["mulliken_charges"]) != len(result["atnums"]):
+            raise LoadError(
+                f"The number of Mulliken charges ({len(data['mulliken_charges'])}) "
+                f"is inconsistent with the number of atoms ({len(result['atnums'])}).",
+                lit,
+            )
         result["atcharges"] = {"mulliken": data["mulliken_charges"]}
 
     # build molecular orbitals
